@@ -2,7 +2,9 @@
 //   {"k":"schema",...}  {"k":"entity",...}  {"k":"type",...}  {"k":"inst",...}  {"k":"done"}
 // usage: regdump            dictionary + instances
 //        regdump dict       dictionary only
-//        regdump inst A B.. instances only, skipping entities A B .. (used to continue after a crash in one constructor)
+//        regdump inst A B.. instances only, skipping entities A B .. (used to continue after a crash in one constructor);
+//                           an argument w:A keeps the instance of A but does not write it
+// After the {"k":"inst"} record of an entity the fresh instance is written with STEPwrite: {"k":"inst-p21","entity":..,"text":..}
 // Only getters of the dictionary classes are used (Registry iteration, descriptor accessors, ObjCreate).
 // The library's cout chatter is discarded; every line is flushed so that a crash leaves the lines before it.
 extern void SchemaInit( class Registry & );
@@ -288,6 +290,19 @@ int main( int argc, char ** argv ) {
             }
             printf( "%s\n", o.c_str() );
             fflush( stdout );
+            bool nowrite = !se || se == ENTITY_NULL;
+            for( int a = 2; a < argc; a++ ) {
+                if( std::string( "w:" ) + names[k] == argv[a] ) {
+                    nowrite = true;
+                }
+            }
+            if( !nowrite ) {
+                // the Part 21 text of the fresh instance: one parameter per attribute the library takes to be part of the record
+                std::ostringstream p21;
+                se->STEPwrite( p21, 0, 0 );
+                printf( "{\"k\":\"inst-p21\",\"entity\":%s,\"text\":%s}\n", js( names[k] ).c_str(), js( p21.str() ).c_str() );
+                fflush( stdout );
+            }
         }
     }
     printf( "{\"k\":\"done\"}\n" );
